@@ -62,7 +62,19 @@ def _install(ctx):
     assert pg.generate_grammar is gen.generate_grammar and gr.generate_grammar is gen.generate_grammar
 
 
-TERMS = ['NAME', 'NUMBER', 'STRING', 'NEWLINE', 'INDENT', 'DEDENT', "'a'", "'b'", "'+'", "'if'", "'('", "')'", '","', "'x'"]
+TERMS = ['NAME', 'NUMBER', 'STRING', 'NEWLINE', 'INDENT', 'DEDENT', "'a'", "'b'", "'+'", "'if'", "'('", "')'", '","', "'x'",
+         # terminals spelled with escapes: the same tokens as their plain spellings ('\\x61' is 'a', so the two conflict in one state)
+         "'\\x2b'", "'\\x61'", "'\\''", '"\\""', "'\\x69f'", '"b"']
+
+
+def alt_namespace():
+    """a second token namespace with the same member names as PythonTokenTypes (what another language built on parso has): the
+    tables generated for it must hold its own members"""
+    if 'alt_ns' not in _state:
+        import enum
+        from parso.python.token import PythonTokenTypes
+        _state['alt_ns'] = enum.Enum('AltTokens', [(m.name, 'alt-' + m.name) for m in PythonTokenTypes])
+    return _state['alt_ns']
 
 
 def rand_expr(rng, names, depth):
@@ -174,8 +186,12 @@ def _judge_text(ctx, text, origin):
     ctx.count('evaluations')
     w = {'grammar': text if len(text) < 3000 else None, 'file': origin}
     verdict = ll1model.model_is_ll1(text)
+    ns = PythonTokenTypes
+    if origin == 'random' and ctx.counters['evaluations'] % 3 == 0:
+        ns = alt_namespace()
+        ctx.count('grammars_over_the_second_token_namespace')
     try:
-        generate_grammar(text, PythonTokenTypes)
+        generate_grammar(text, ns)
     except ValueError as e:
         ctx.count('rejected_by_generator')
         if verdict is None:
@@ -241,7 +257,8 @@ def shards(tier, seed):
 
 def floors(tier):
     return {'shipped_files': 9, 'checked_rules': 843, 'checked_plans': 25000, 'accepted_by_generator': 500,
-            'rejected_by_generator': 1000, 'contract_evals:generate_grammar': 500}
+            'rejected_by_generator': 1000, 'contract_evals:generate_grammar': 500,
+            'grammars_over_the_second_token_namespace': 1000}
 
 
 def extra_coverage(m, tier):
